@@ -691,7 +691,9 @@ pub fn gen_cell_op(rng: &mut Rng, cfg: &GenCfg, tag: &str) -> Op {
         7 => Op::Hyperlink {
             sheet,
             cell,
-            url: match rng.usize(6) {
+            url: match rng.usize(7) {
+                // a link that has no target yet (what get_hyperlink_mut() creates before set_url)
+                6 if rng.chance(1, 3) => String::new(),
                 // a few targets that several links of a workbook share (a, b, a, c ...)
                 4 | 5 => format!("https://example.com/shared/{}", ["a", "b", "c"][rng.usize(3)]),
                 0 => format!("https://example.com/{}/{}#frag ment", tag, rng.below(1000)),
